@@ -3,7 +3,7 @@ CONSTANTS
   QMode = "keyed"
   ProgSel = 1
   MaxLen = 2
-  MaxSteps = 4
+  MaxSteps = 3
   MaxTime = 40
 CONSTRAINT Bound
 INVARIANT InvStackRestored
